@@ -185,11 +185,14 @@ def base_ro(P, A, ids):
     c0 = A.get('c0', 'c')
     # P['story_schema']: the stories' own (nested) metadata blocks use the schema of carried block A / X
     ss = {'A': A.get('ma', 'sch.a'), 'X': A.get('mx', 'sch.x'), None: 'sch.story'}[P.get('story_schema')]
-    stories = [B.story(s, slug='ss', timing=B.timing_block(dur='10', schema=ss),
+    # P['edstart'] / P['last_ended']: timestamps with or without zone designator (the running order's start and
+    # the last story's explicit end need not be comparable with each other)
+    stories = [B.story(s, slug='ss', timing=B.timing_block(dur='10', schema=ss,
+                                                           ended=P.get('last_ended') if i == len(ids) - 1 else None),
                        body=[T('p', c0), B.item('I', slug=c0, extra=E('mosExternalMetadata', T('mosSchema', ss),
                                                                   E('mosPayload', T('inItem', c0))))])
-               for s in ids]
-    root = B.ro_tree(stories, lead=3, gap=P.get('gap', 0), trail=P.get('trail', 1), edstart=None,
+               for i, s in enumerate(ids)]
+    root = B.ro_tree(stories, lead=3, gap=P.get('gap', 0), trail=P.get('trail', 1), edstart=P.get('edstart'),
                      msg_id=A.get('mid', '1'))
     rc = root.find('roCreate')
     # the blocks already there carry attributes the replacement does not
